@@ -134,6 +134,13 @@
             ("incloop", "{% for i in range(4) %}{% include 'inc' %}{% endfor %}"),
             ("import", "{% import 'lib' as lib %}{{ lib.f(3) }}{% from 'lib' import f %}{{ f(4) }}"),
             ("child", "{% extends 'base' %}{% block body %}<{{ super() }}>{{ a }}{% endblock %}"),
+            // callables reached through an expression (a macro stored in a map / list / namespace, a call block on such a
+            // value, a macro passed as an argument, caller() handed on) run on the same tracker as everything else
+            ("callobj_map", "{% macro h(n) %}{% for i in range(n) %}.{% endfor %}{% endmacro %}{% set t = {'h': h} %}{{ t['h'](20) }}{{ t.h(20) }}"),
+            ("callobj_list", "{% macro h(n) %}{% for i in range(n) %}.{% endfor %}{% endmacro %}{% set fns = [h, h] %}{{ fns[0](15) }}{{ fns[1](15) }}{{ (fns|last)(10) }}"),
+            ("callobj_ns", "{% macro w(n) %}{% for i in range(n) %}{{ caller() }}{% endfor %}{% endmacro %}{% set ns = namespace(wrap=[w]) %}{% call ns.wrap[0](12) %}x{% endcall %}"),
+            ("callobj_arg", "{% macro h(n) %}{% for i in range(n) %}.{% endfor %}{% endmacro %}{% macro ap(f, n) %}{{ f(n) }}{{ f(n) }}{% endmacro %}{{ ap(h, 9) }}{{ [3, 4]|map('string')|map(attribute='x')|list|length }}"),
+            ("callobj_caller", "{% macro inner(f) %}{{ f() }}{{ f() }}{% endmacro %}{% macro outer() %}{{ inner(caller) }}{% endmacro %}{% call outer() %}{% for i in range(7) %}c{% endfor %}{% endcall %}"),
         ];
         let mk = |fuel: Option<u64>| {
             let mut env = Environment::new();
@@ -154,6 +161,9 @@
             assert!(consumed + remaining == 1_000_000, "{name}: levels do not add up");
             let cost = consumed;
             assert!(cost > 0);
+            // an engine-independent lower bound: every character a loop body printed cost at least one charged instruction
+            let dots = reference.matches(|c| c == '.' || c == 'x' || c == 'c').count() as u64;
+            assert!(cost >= dots, "{name}: reported consumption {cost} is less than the {dots} loop iterations that visibly ran");
             let thorough = std::env::var("VERIF_TIER").map_or(false, |t| t == "thorough");
             let mut budgets: Vec<u64> = (0..=cost + (if thorough { 40 } else { 3 })).collect();
             budgets.extend([i64::MAX as u64, 1u64 << 63, u64::MAX - 1, u64::MAX]);
